@@ -146,7 +146,8 @@ class AdvancedTag(object):
                 @param isSelfClosing - True if self-closing tag ( <tagName attrs /> ) will be set to False if text or children are added.
                 @param ownerDocument <None/AdvancedHTMLParser> - The parser (document) associated with this tag, or None for no association
         '''
-        self.tagName = tagName.lower()
+        tagName = tagName.lower()
+        self.tagName = tagName
 
         # Using this rawSet instead of __setattr__ (which is almost always an external-only interface)
         #   greatly increases performance
